@@ -12,6 +12,7 @@ Semantic actions (closures of `map`) are recorded with a fingerprint in the gene
 """
 import hashlib
 import os
+import sys
 import re
 import lib
 
@@ -438,6 +439,86 @@ def write_if_changed(path, text):
     return False
 
 
+REFDIR = os.path.join(os.path.dirname(os.path.abspath(__file__)), "ref")
+
+
+def snapshot_of(g):
+    guarded = {fn: g.consts.get(const, 0) for fn, const in g.depth_guards}
+    return {"prods": [[n, t] for n, t in g.prods], "guards": guarded}
+
+
+def emit_ref(namespace, snap, cur_order):
+    """the REVIEWED grammar (tools/ref/*.json, committed) as a Lean environment.  Productions that also exist in the grammar
+    translated from the current source get the same nonterminal numbers, so that the model's semantic actions read the trees
+    of both alike."""
+    names = [n for n, _ in snap["prods"]]
+    idx = {}
+    nxt = len(cur_order)
+    for n in names:
+        if n in cur_order:
+            idx[n] = cur_order.index(n)
+        else:
+            idx[n] = nxt
+            nxt += 1
+    lines = ["import XmlRsModel.Peg", "import XmlRsModel.PegPreds",
+             "/-! GENERATED on every check run by tools/translate.py from the reviewed snapshot tools/ref/%s.json:" % namespace.lower(),
+             "    the grammar as it was when it was last read against the Recommendation; the differential reference for",
+             "    the grammar translated from the current source. -/",
+             "namespace XmlRs.Gen.%sRef" % namespace, "open XmlRs", "", "namespace N"]
+    for n in names:
+        lines.append("def %s : Nat := %d" % (lean_id(n), idx[n]))
+    lines += ["end N", "", "def ntNames : List (String × Nat) := [%s]" % ", ".join('("%s", %d)' % (n, idx[n]) for n in names), "",
+              "namespace Prod"]
+    for n, t in snap["prods"]:
+        lines.append("def %s : G :=\n  %s" % (lean_id(n), t))
+    lines += ["end Prod", "", "def env : Env"]
+    for n in sorted(names, key=lambda x: idx[x]):
+        lines.append("  | %d => Prod.%s" % (idx[n], lean_id(n)))
+    lines.append("  | _ => G.alt []")
+    lines.append("")
+    for fn in sorted(set(snap.get("guards", {})) | ({"element", "children"} if namespace == "Xml" else {"expr"})):
+        lines.append("def maxDepth_%s : Nat := %d" % (fn, snap.get("guards", {}).get(fn, 0)))
+    lines += ["", "end XmlRs.Gen.%sRef" % namespace, ""]
+    return "\n".join(lines)
+
+
+def load_ref(name):
+    import json
+    return json.load(open(os.path.join(REFDIR, name + ".json")))
+
+
+def grammar_diffs(name, g):
+    """productions of the grammar translated from the current source that differ from the reviewed snapshot:
+    [(production, current term or None, reviewed term or None)]"""
+    ref = load_ref(name)
+    rp = dict((n, t) for n, t in ref["prods"])
+    cp = dict(g.prods) if g is not None else {}
+    out = []
+    for n in sorted(set(rp) | set(cp)):
+        if rp.get(n) != cp.get(n):
+            out.append((n, cp.get(n), rp.get(n)))
+    if g is not None:
+        cg = {fn: g.consts.get(const, 0) for fn, const in g.depth_guards}
+        for fn in sorted(set(cg) | set(ref.get("guards", {}))):
+            if cg.get(fn, 0) != ref.get("guards", {}).get(fn, 0):
+                out.append(("limit:" + fn, str(cg.get(fn, 0)), str(ref.get("guards", {}).get(fn, 0))))
+    return out
+
+
+def write_refs(gx, gp):
+    gen = os.path.join(lib.LEAN, "XmlRsModel", "Gen")
+    for ns, name, g, fallback in (("Xml", "xml", gx, "XmlGrammar.lean"), ("XPath", "xpath", gp, "XPathGrammar.lean")):
+        snap = load_ref(name)
+        if g is not None:
+            order = [n for n, _ in g.prods]
+        else:
+            # the current source could not be translated: the last good translation is still in place, number like it
+            txt = open(os.path.join(gen, fallback)).read()
+            m = re.search(r"def ntNames : List String := \[(.*?)\]", txt)
+            order = re.findall(r'"([^"]*)"', m.group(1)) if m else [n for n, _ in snap["prods"]]
+        write_if_changed(os.path.join(gen, "%sGrammarRef.lean" % ns), emit_ref(ns, snap, order))
+
+
 def translate_all(repo=None):
     repo = repo or lib.REPO
     gen = os.path.join(lib.LEAN, "XmlRsModel", "Gen")
@@ -457,3 +538,12 @@ def translate_all(repo=None):
 if __name__ == "__main__":
     gx, gp = translate_all()
     print(len(gx.prods), "xml productions;", len(gp.prods), "xpath productions")
+    if "--snapshot" in sys.argv:
+        # to be run by hand after the grammar of /repo was read against the Recommendation (e.g. after a fix: commit)
+        import json
+        os.makedirs(REFDIR, exist_ok=True)
+        json.dump(snapshot_of(gx), open(os.path.join(REFDIR, "xml.json"), "w"), indent=1)
+        json.dump(snapshot_of(gp), open(os.path.join(REFDIR, "xpath.json"), "w"), indent=1)
+        print("snapshots written to", REFDIR)
+    write_refs(gx, gp)
+    print("differences from the reviewed grammars:", grammar_diffs("xml", gx), grammar_diffs("xpath", gp))
